@@ -29,3 +29,13 @@ func VerifLRUMapLen(c ClientSessionCache) int {
 	defer l.Unlock()
 	return len(l.m)
 }
+
+// VerifBoringGREASE evaluates GetBoringGREASEValue with the seed word at index set to word.
+func VerifBoringGREASE(word uint16, index int) uint16 {
+	var seed [ssl_grease_last_index]uint16
+	seed[index] = word
+	return GetBoringGREASEValue(seed, index)
+}
+
+// VerifGreaseIndexes returns the number of GREASE seed words.
+func VerifGreaseIndexes() int { return ssl_grease_last_index }
